@@ -104,6 +104,194 @@ def check(run, prog, tier):
     intunits.check_classes(run, prog, "C08-H", [cls.qualname, pc.qualname], 15,
                            "times are in femtoseconds: the stored U(t) or its conversion from the rotating frame no "
                            "longer reproduces direct propagation")
+    run.rule("C08-J", "what the step-by-step mode keeps between calls and multiplies with the basis-managed data is "
+                      "basis-managed too (no plain array frozen in the basis of an earlier call)", minimum=2)
+    rule_J(run, prog, cls)
+    run.rule("C08-K", "both calculation modes: record the rotating frame alike, accept the same optional generators", minimum=3)
+    rule_K(run, prog, cls)
+    run.rule("C08-L", "apply() at several times: the string 'all' is not dereferenced as an axis; a list of times is used as "
+                      "a whole, not through its first two entries", minimum=2)
+    rule_L(run, prog, cls)
+
+
+
+def rule_J(run, prog, cls):
+    """Computing step by step gives the same values as all at once - also when some steps are taken inside
+    eigenbasis_of: self.data follows the context, so anything kept between calls and combined with it must follow too.
+    Every product / contraction / sum in the class that has a basis-managed read of self as one operand has no plain
+    stored array attribute (computed in some method, not a managed property) as the other; an attribute read through
+    .data must be bound to a basis-managed object at every store."""
+    from .. import memo
+    rid = "C08-J"
+    mb = memo.basis_managed_attributes(prog, cls)
+    if "data" not in mb:
+        raise AnalysisError("EvolutionSuperOperator.data is no longer basis managed")
+    methods = memo._class_methods(prog, cls)
+    stores = {}
+    for fn in methods.values():
+        for n in ast.walk(fn.node):
+            if isinstance(n, ast.Assign):
+                for t_ in n.targets:
+                    if isinstance(t_, ast.Attribute) and norm(t_.value) == "self" and t_.attr not in mb \
+                            and not (t_.attr.startswith("_") and t_.attr[1:] in mb):
+                        stores.setdefault(t_.attr, []).append((fn, n))
+
+    def managed_ctor(v):
+        if not (isinstance(v, ast.Call) and isinstance(v.func, ast.Name)):
+            return False
+        c = prog.resolve_in_module(cls.module.name, v.func.id)
+        return hasattr(c, "methods") and "data" in memo.basis_managed_attributes(prog, c)
+    n_sites = 0
+    for fn in cls.methods.values():
+        prog.consulted.add(fn.relpath)
+        for n in ast.walk(fn.node):
+            if isinstance(n, ast.Call) and call_name(n) in ("tensordot", "dot", "einsum", "matmul"):
+                ops = list(n.args)
+            elif isinstance(n, ast.BinOp) and isinstance(n.op, (ast.Mult, ast.MatMult, ast.Add, ast.Sub)):
+                ops = [n.left, n.right]
+            else:
+                continue
+            txt = [norm(o) for o in ops]
+            man = [t_ for t_ in txt if any(t_ == "self." + a or t_.startswith("self.%s[" % a) or t_.startswith("self._%s[" % a) for a in mb)]
+            if not man:
+                continue
+            n_sites += 1
+            bad = None
+            for o, t_ in zip(ops, txt):
+                b = o
+                while isinstance(b, ast.Subscript):
+                    b = b.value
+                if isinstance(b, ast.Attribute) and norm(b.value) == "self" and b.attr in stores:
+                    computed = [st for _, st in stores[b.attr] if isinstance(st.value, (ast.Call, ast.BinOp, ast.Subscript))]
+                    if computed and not all(managed_ctor(st.value) for st in computed):
+                        bad = "self.%s (a plain array stored by %s)" % (b.attr, stores[b.attr][0][0].short)
+                    elif computed:
+                        bad = "self.%s itself (a managed object; its .data has to be read)" % b.attr
+                if isinstance(b, ast.Attribute) and b.attr == "data" and isinstance(b.value, ast.Attribute) \
+                        and norm(b.value.value) == "self" and b.value.attr in stores:
+                    if not all(managed_ctor(st.value) for _, st in stores[b.value.attr]):
+                        bad = "self.%s.data, where self.%s is not always bound to a basis-managed object" % (b.value.attr, b.value.attr)
+            run.obligation(rid, fn.short, bad is None, key="managed-operands:" + norm(n)[:50],
+                           message="%s combines the basis-managed %s with %s: the stored array stays in the basis of the call that "
+                                   "computed it while the data follow the current context, so steps taken in different bases "
+                                   "are mixed" % (fn.short, man[0][:40], bad), loc=fn.loc(n), sample={"expression": norm(n)[:80]})
+    if n_sites < 2:
+        raise AnalysisError("only %d combinations with the managed data found (2 confirmed)" % n_sites)
+
+
+def _unguarded_derefs(fn, attrs):
+    """attributes of self in attrs that are dereferenced in fn without a dominating 'is not None' test"""
+    from ..loader import parents_map
+    pm = parents_map(fn.node)
+    out = {}
+    for n in ast.walk(fn.node):
+        if isinstance(n, ast.Attribute) and isinstance(n.value, ast.Attribute) and norm(n.value.value) == "self" \
+                and n.value.attr in attrs:
+            A = n.value.attr
+            g = False
+            node = n
+            while node is not None and node is not fn.node:
+                p_ = pm.get(node)
+                if isinstance(p_, ast.If):
+                    if ("self.%s is not None" % A) in norm(p_.test) and any(node is b for b in p_.body):
+                        g = True
+                    if norm(p_.test) == ("self.%s is None" % A) and any(node is b for b in p_.orelse):
+                        g = True
+                if isinstance(p_, ast.BoolOp) and isinstance(p_.op, ast.And):
+                    idx = [i for i, v in enumerate(p_.values) if v is node]
+                    if idx and any(("self.%s is not None" % A) in norm(v) for v in p_.values[:idx[0]]):
+                        g = True
+                for fld in ("body", "orelse", "finalbody"):
+                    blk = getattr(p_, fld, None)
+                    if isinstance(blk, list) and node in blk:
+                        for prev in blk[:blk.index(node)]:
+                            if isinstance(prev, ast.If) and norm(prev.test) == ("self.%s is None" % A) \
+                                    and isinstance(prev.body[-1], (ast.Raise, ast.Return)):
+                                g = True
+                node = p_
+            if not g:
+                out.setdefault(A, n)
+    return out
+
+
+def rule_K(run, prog, cls):
+    """'Computing it step by step gives the same values as computing it all at once': the two entries calculate() and
+    calculate_next() are siblings.  (i) Each of them ends, on the path common to all its branches, by recording the
+    rotating frame (`if self.ham.has_rwa: self.is_in_rwa = True`) - convert_from_RWA looks at nothing else.  (ii) They
+    accept the same generators: an optional constructor input (default None) that one entry never dereferences
+    unguarded is not dereferenced unguarded by the other."""
+    rid = "C08-K"
+    for nme in ("calculate", "calculate_next"):
+        fn = cls.methods[nme]
+        prog.consulted.add(fn.relpath)
+        flag = [st for st in fn.node.body if isinstance(st, ast.If) and norm(st.test) == "self.ham.has_rwa"
+                and any(norm(x) == "self.is_in_rwa = True" for x in st.body)]
+        run.obligation(rid, fn.short, bool(flag), key="frame-flag",
+                       message="%s fills the superoperator from a Hamiltonian that may have a rotating-wave reference and does not "
+                               "record it (self.is_in_rwa): convert_from_RWA then silently does nothing, and the values differ "
+                               "from the other calculation mode and from lab-frame propagation" % fn.short, loc=fn.loc(fn.node))
+    init = cls.methods["__init__"]
+    a = init.node.args
+    pos = a.args[1:]
+    opt = {p_.arg for p_, d in zip(pos[len(pos) - len(a.defaults):], a.defaults) if isinstance(d, ast.Constant) and d.value is None}
+    optattrs = {t_.attr for n in ast.walk(init.node) if isinstance(n, ast.Assign) and isinstance(n.value, ast.Name) and n.value.id in opt
+                for t_ in n.targets if isinstance(t_, ast.Attribute) and norm(t_.value) == "self"}
+    if "relt" not in optattrs:
+        raise AnalysisError("EvolutionSuperOperator.__init__: optional relt no longer stored as self.relt")
+    d1 = _unguarded_derefs(cls.methods["calculate"], optattrs)
+    d2 = _unguarded_derefs(cls.methods["calculate_next"], optattrs)
+    for A in sorted(set(d1) ^ set(d2)):
+        fn = cls.methods["calculate"] if A in d1 else cls.methods["calculate_next"]
+        other = "calculate_next" if A in d1 else "calculate"
+        node = (d1 if A in d1 else d2)[A]
+        run.obligation(rid, fn.short, False, key="optional-input:" + A,
+                       message="%s dereferences self.%s (%s) without looking whether it was given; %s() works without it (the "
+                               "constructor default is None): the same generator can be calculated in one mode and raises "
+                               "AttributeError in the other" % (fn.short, A, norm(node), other), loc=fn.loc(node))
+    run.obligation(rid, "EvolutionSuperOperator", True, key="optional-inputs-compared", message="",
+                   loc=init.loc(init.node), sample={"optional": sorted(optattrs), "calculate": sorted(d1), "calculate_next": sorted(d2)})
+
+
+def rule_L(run, prog, cls):
+    """'Applied to any state reproduces direct propagation of that state' at the times asked for.  In apply(): where the
+    time argument may be a string (the branch guarded by isinstance(time, str)) no attribute of it is read; where it is a
+    list, the list as a whole is looked at (iterated, compared, converted) - an axis built from its first two entries and
+    its length alone stands for other times than the ones given."""
+    from ..loader import parents_map
+    rid = "C08-L"
+    fn = cls.methods["apply"]
+    prog.consulted.add(fn.relpath)
+    par = fn.node.args.args[1].arg
+    pm = parents_map(fn.node)
+    strifs = [n for n in ast.walk(fn.node) if isinstance(n, ast.If) and ("isinstance(%s, str)" % par) in norm(n.test)
+              and not norm(n.test).startswith("not ")]
+    outer = [n for n in strifs if ("id(%s)" % par) in norm(n.test) or len(strifs) == 1]
+    if not outer:
+        raise AnalysisError("apply: branch for a string argument not found")
+    bad = [x for st in outer[0].body for x in ast.walk(st) if isinstance(x, ast.Attribute) and isinstance(x.value, ast.Name)
+           and x.value.id == par]
+    run.obligation(rid, fn.short, not bad, key="string-not-dereferenced",
+                   message="in the branch of apply() taken for %s='all' the argument is dereferenced (%s): a string has no such "
+                           "attribute, the documented call raises AttributeError" % (par, norm(bad[0]) if bad else ""),
+                   loc=fn.loc(bad[0]) if bad else fn.loc(outer[0]))
+    # list branch: the else of `if isinstance(time, TimeAxis)`
+    lst = [n for n in ast.walk(fn.node) if isinstance(n, ast.If) and norm(n.test) == "isinstance(%s, TimeAxis)" % par and n.orelse]
+    if len(lst) != 1:
+        raise AnalysisError("apply: branch for a list of times not found")
+    whole = []
+    for st in lst[0].orelse:
+        for x in ast.walk(st):
+            if isinstance(x, ast.Name) and x.id == par and isinstance(x.ctx, ast.Load):
+                p_ = pm.get(x)
+                if isinstance(p_, ast.Subscript) and p_.value is x:
+                    continue
+                if isinstance(p_, ast.Call) and call_name(p_) == "len":
+                    continue
+                whole.append(x)
+    run.obligation(rid, fn.short, bool(whole), key="list-used-as-a-whole",
+                   message="apply() builds the axis of the result from the first two entries and the length of the list of times "
+                           "and never looks at the other entries: for times that are not equidistant the states returned belong "
+                           "to other times than the ones asked for", loc=fn.loc(lst[0]))
 
 
 def rule_A(run, prog, cls):
@@ -312,11 +500,32 @@ def rule_C(run, prog, cls):
     for c in _tensordots(cls.methods["calculate_next"].node):
         a0, a1 = norm(c.args[0]), norm(c.args[1])
         comp, detail = _compose_ok(prog, cls.methods["calculate_next"], c, a0, a1)
-        left_is_step = a0 in ("Ut1", "self.Udt") and a1.startswith("self.data[")
+        left_is_step = (a0 == "Ut1" or _is_step(c.args[0])) and a1.startswith("self.data[")
         run.obligation(rid, "EvolutionSuperOperator.calculate_next", comp and left_is_step,
                        key="compose:" + norm(c)[:50],
                        message="incremental mode must compose step . previous (%s)" % detail,
                        loc=cls.methods["calculate_next"].loc(c), sample={"compose": norm(c)})
+
+
+def _is_step(node):
+    """the kept propagator of one interval: self.Udt as an array, or the data of self.Udt held as a superoperator;
+    optionally with a subscript of full slices"""
+    if isinstance(node, ast.Subscript):
+        sl = node.slice.elts if isinstance(node.slice, ast.Tuple) else [node.slice]
+        if not all(isinstance(x, ast.Slice) and x.lower is None and x.upper is None and x.step is None for x in sl):
+            return False
+        node = node.value
+    return norm(node) in ("self.Udt", "self.Udt.data")
+
+
+def _one_step_call(node):
+    """the one-step routine called as in calculate(), possibly wrapped as SuperOperator(data=...)"""
+    if isinstance(node, ast.Call) and call_name(node) == "SuperOperator":
+        vals = [k.value for k in node.keywords if k.arg == "data"] + list(node.args[:1])
+        if len(vals) != 1:
+            return False
+        node = vals[0]
+    return norm(node) == "self._one_step_with_dense_TimeIndep(t0, self.dense_time.length, self.dense_time.step, Nt)"
 
 
 def rule_D(run, prog, cls):
@@ -331,18 +540,23 @@ def rule_D(run, prog, cls):
     if len(first) != 1:
         raise AnalysisError("calculate_next: 'self.now == 0' branch not found")
     fb = [norm(s) for s in ast.walk(ast.Module(body=first[0].body, type_ignores=[])) if isinstance(s, ast.stmt)]
+    fstm = [s_ for s_ in ast.walk(ast.Module(body=first[0].body, type_ignores=[])) if isinstance(s_, ast.Assign)]
     ok = "self._initialize_data(save=save)" in fb and "t0 = 0.0" in fb and \
-        "self.Udt = self._one_step_with_dense_TimeIndep(t0, self.dense_time.length, self.dense_time.step, Nt)" in fb
+        any(norm(s_.targets[0]) == "self.Udt" and _one_step_call(s_.value) for s_ in fstm)
     run.obligation(rid, "EvolutionSuperOperator.calculate_next", ok, key="first-step",
                    message="the first incremental step must initialise and compute the first interval "
                            "exactly as calculate() does", loc=f.loc(first[0]), sample={"statements": fb[:6]})
-    ok = "self.data[1, :, :, :, :] = self.Udt[:, :, :, :]" in fb and "self.data[:, :, :, :] = self.Udt[:, :, :, :]" in fb
+    ok = any(norm(s_.targets[0]) == "self.data[1, :, :, :, :]" and _is_step(s_.value) for s_ in fstm) and \
+        any(norm(s_.targets[0]) == "self.data[:, :, :, :]" and _is_step(s_.value) for s_ in fstm)
     run.obligation(rid, "EvolutionSuperOperator.calculate_next", ok, key="first-store",
                    message="the first interval must be stored (slot 1 when saving, whole array otherwise)",
                    loc=f.loc(first[0]))
     lb = [norm(s) for s in ast.walk(ast.Module(body=first[0].orelse, type_ignores=[])) if isinstance(s, ast.stmt)]
-    ok = "ti = self.now + 1" in lb and \
-        "self.data[ti, :, :, :, :] = numpy.tensordot(self.Udt, self.data[ti - 1, :, :, :, :])" in lb
+    lstm = [s_ for s_ in ast.walk(ast.Module(body=first[0].orelse, type_ignores=[])) if isinstance(s_, ast.Assign)]
+    ok = "ti = self.now + 1" in lb and any(
+        norm(s_.targets[0]) == "self.data[ti, :, :, :, :]" and isinstance(s_.value, ast.Call) and call_name(s_.value) == "tensordot"
+        and len(s_.value.args) == 2 and _is_step(s_.value.args[0]) and norm(s_.value.args[1]) == "self.data[ti - 1, :, :, :, :]"
+        for s_ in lstm)
     run.obligation(rid, "EvolutionSuperOperator.calculate_next", ok, key="later-steps",
                    message="later incremental steps must apply the stored first interval to the previous "
                            "value at ti = now + 1", loc=f.loc(first[0]))
